@@ -428,6 +428,40 @@ def run_env(case, agg):
         agg.ok(key, "ok:from_envelope", sample={"eb": eb, "names": case["names"], "len": case["len"]})
 
 
+# -- URI alphabet through the from_payloads entry point ("<URI>,<FILE>" arguments) --------------------------------
+
+URI_ALPHABET = ["a", "A", " a", "a ", "\ta", "a\u00a0", " ", "file://x/ y.bin", "FILE://X/Y.BIN", "#", "é", "\u20ac\U0001D11E", "u" * 300, "a\nb"]
+
+
+def uri_cases(tier):
+    import itertools as it
+    return [{"uris": list(p)} for p in it.permutations(range(len(URI_ALPHABET)), 2) if p[0] < 6 or p[1] < 6]
+
+
+def run_uris(case, agg):
+    cc = _mod()
+    uris = [URI_ALPHABET[i] for i in case["uris"]]
+    pairs = [(u, payload(5 + i, i)) for i, u in enumerate(uris)]
+    with fresh_dir("c10u") as d:
+        out = os.path.join(d, "c.bin")
+        args = []
+        for i, (u, p) in enumerate(pairs):
+            f = os.path.join(d, f"p{i}.bin")
+            open(f, "wb").write(p)
+            args.append(f"{u},{f}")
+        try:
+            cc.main(cache_create_subcommand="from_payloads", output_file=out, eb_size=8, input=args)
+        except Exception as e:
+            agg.viol(f"C10:uri/{type(e).__name__}", f"URIs {uris!r}: distinct non-empty URIs refused: {type(e).__name__}: {e}")
+            return
+        data = open(out, "rb").read()
+    problems = check_cache(data, 8, pairs)
+    if problems:
+        agg.viol("C10:uri/" + _classify(problems[0]), f"URIs {uris!r}: " + "; ".join(problems[:2]))
+    else:
+        agg.ok(h8("c10u", case), "ok:uri", sample={"uris": uris} if case["uris"] == [2, 3] else None)
+
+
 # -- the real CLI ---------------------------------------------------------------------------------------------
 
 def cli_cases(tier):
@@ -487,6 +521,7 @@ def plan(tier):
                  rule="add-slot histories; alphabet 5 residues x {new, duplicate URI}; eb in {4,16,64}"),
         CaseStage("merge", lambda: merge_cases(tier), run_merge,
                   rule="ordered 1-3 tuples of a 9-cache pool x eb' in {4,16,64}, plus merges of merged caches"),
+        CaseStage("uri-alphabet", lambda: uri_cases(tier), run_uris, rule="ordered pairs of URIs that differ in case / surrounding blanks / script, through from_payloads main"),
         CaseStage("cli", lambda: cli_cases(tier), run_cli, rule="real CLI: three sub-commands x --eb-size {default, 1, 8, 64, 4096}"),
         CaseStage("from_envelope", lambda: env_cases(tier), run_env,
                   rule="synthetic envelopes x eb x payload names x lengths through cmd main from_envelope"),
